@@ -161,6 +161,7 @@ def run_translator(ck):
            "Definition UF := Eval vm_compute in filter (fun x => negb (existsb (String.eqb x) handler_side_functions_model)) gen_handler_side_functions.\nPrint UF.\n"
            "Definition FS := Eval vm_compute in map rt_handler (filter (fun r => negb (first_pre_is_service r)) gen_routes).\nPrint FS.\n"
            "Definition NSI := Eval vm_compute in Z.of_nat (List.length gen_handler_side_sites).\nPrint NSI.\n"
+           "Definition CXO := Eval vm_compute in ctx_contract_ok gen_ctx_writes gen_ctx_asserted_reads.\nPrint CXO.\n"
            "Definition CEL := Eval vm_compute in (gen_content_encodings, gen_content_encoding_default_400).\nPrint CEL.\n"
            "Definition PPA := Eval vm_compute in (gen_pprof_parse_appends, gen_pprof_parse_append_in_loop).\nPrint PPA.\n"
            "Definition IM := Eval vm_compute in filter (fun f => negb (prefix \"controller/\" f)) gen_unmarshal_importers.\nPrint IM.\n"
@@ -225,6 +226,8 @@ def run_translator(ck):
     ck.obligation("only setters, resets and constructors of package unmarshal run on the handler goroutine", val("UF") == "[]",
                   "functions newly reachable outside the parser goroutine: " + val("UF"))
     ck.obligation("every route looks up its insert services before anything else", val("FS") == "[]", "routes: " + val("FS"))
+    ck.obligation("request-context values asserted without comma-ok (DSN, META, TTL_DAYS, node, precision) and every context.WithValue that stores them are the ones read",
+                  val("CXO") == "true", "gen_ctx_asserted_reads / gen_ctx_writes differ from ctx_reads_model / ctx_writers_model (see coq/gen/GenGoroutinesWriter.v)")
     ck.obligation("WithOverallContextMiddleware accepts the Content-Encoding values \"\", gzip, snappy and answers 400 to any other",
                   val("CEL").replace(" ", "") == '([\"\";\"gzip\";\"snappy\"],true)', "switch cases, default is a 400 error: " + val("CEL"))
     ck.obligation("golangPprof.go Parse yields exactly one profile per body (the profile insert service is rectangular for one-row requests only)",
